@@ -90,7 +90,7 @@ class C12(HistoryProperty):
     CAP = {"quick": 14, "thorough": 60}
 
     def gen_case(self, rng, tier):
-        cfg = gen.swarm_cfg(rng, off=("shape_change",))
+        cfg = gen.swarm_cfg(rng, off=("shape_change",), on=("dsclass",))
         spec = gen.prune(gen.gen_spec(rng, cfg))
         for n in spec["nodes"]:
             if n["k"] == "dataset" and n.get("cache", "default") == "default":
